@@ -4,4 +4,6 @@ INVARIANT LOG_RemovedAreGone
 INVARIANT LOG_FunctionalAgrees
 INVARIANT LOG_StressColumns
 PROPERTY LOG_ReplaceKeepsPosition
+PROPERTY LOG_SetKeepsPositions
+INVARIANT LOG_SetComplete
 INVARIANT EmitAll
